@@ -45,6 +45,7 @@ type Model struct {
 	flatCache map[types.Type][]Comp
 	qual      types.Qualifier
 	defs      map[string]storeDef
+	lazies    map[string]*lazyMerge
 }
 
 func NewModel(ctx *Ctx) *Model {
@@ -290,8 +291,47 @@ type HeapKey struct {
 	Ref  bool   // the stored component is a reference (pointer, map, slice backing array)
 }
 
+type lazyMerge struct {
+	conds []string
+	terms []string
+	sort  Sort
+	key   string
+	name  string // once materialised
+}
+
+// resolve materialises a lazily merged heap version (an ite over the incoming versions) the first
+// time it is read; versions that are never read cost nothing.
+func (m *Model) resolve(t string) string {
+	if !strings.HasPrefix(t, "LAZY:") {
+		return t
+	}
+	lz := m.lazies[t]
+	if lz.name != "" {
+		return lz.name
+	}
+	terms := make([]string, len(lz.terms))
+	for i, x := range lz.terms {
+		terms[i] = m.resolve(x)
+		if strings.Contains(terms[i], "@") && !m.ctx.declared[terms[i]] {
+			m.ctx.Const(terms[i], lz.sort)
+		}
+	}
+	acc := terms[len(terms)-1]
+	for i := len(terms) - 2; i >= 0; i-- {
+		acc = Ite(lz.conds[i], terms[i], acc)
+	}
+	n := m.ctx.Fresh(lz.key, lz.sort)
+	m.ctx.Assume(Eq(n, acc))
+	lz.name = n
+	return n
+}
+
 func (m *Model) heapGet(s *State, k HeapKey) string {
 	if t, ok := s.heap[k.Key]; ok {
+		if strings.HasPrefix(t, "LAZY:") {
+			t = m.resolve(t)
+			s.heap[k.Key] = t
+		}
 		return t
 	}
 	name := fmt.Sprintf("%s@%d", k.Key, s.epoch)
@@ -480,18 +520,12 @@ func (m *Model) mergeStates(conds []string, sts []*State) *State {
 			continue
 		}
 		srt := m.sortOfHeapKey(k)
-		for _, t := range terms {
-			if strings.Contains(t, "@") && !m.ctx.declared[t] {
-				m.ctx.Const(t, srt)
-			}
+		if m.lazies == nil {
+			m.lazies = map[string]*lazyMerge{}
 		}
-		acc := terms[len(terms)-1]
-		for i := len(terms) - 2; i >= 0; i-- {
-			acc = Ite(conds[i], terms[i], acc)
-		}
-		n := m.ctx.Fresh(k, srt)
-		m.ctx.Assume(Eq(n, acc))
-		out.heap[k] = n
+		id := fmt.Sprintf("LAZY:%d", len(m.lazies))
+		m.lazies[id] = &lazyMerge{conds: append([]string(nil), conds...), terms: terms, sort: srt, key: k}
+		out.heap[k] = id
 	}
 	// cnt
 	acc := sts[len(sts)-1].cnt
